@@ -284,6 +284,16 @@ func buildSCloud(exports []types.ExportSegment) ([]types.OpaqueHash, error) {
 	fullSegments = append(fullSegments, exports...)
 	fullSegments = append(fullSegments, pagedProof...)
 
+	if len(fullSegments) == 0 {
+		// No exported segments: the transposed shard matrix has TotalShards empty columns,
+		// and the well-balanced Merkle root of an empty sequence is the zero hash.
+		empty := make([]types.OpaqueHash, types.TotalShards)
+		for i := range empty {
+			empty[i] = merkle_tree.Mb(nil, hash.Blake2bHash)
+		}
+		return empty, nil
+	}
+
 	groupShards := make([][][]byte, len(fullSegments))
 	for i := range fullSegments {
 		shards, err := erasurecoding.EncodeDataShards(fullSegments[i][:], types.DataShards, types.TotalShards-types.DataShards)
